@@ -1,10 +1,12 @@
 #!/bin/bash
+# usage: tools/run_harmless.sh [ids…]   (default: all)    env JOBS=4
 # for every harmless refactoring: run the quick checks of the properties anchored in the touched files; all must stay silent
 cd /verif
-for d in /verif/harmless/*/; do
-  k=$(basename $d)
-  files=$(python3 -c "import json;print(' '.join(json.load(open('$d/meta.json'))['files']) if isinstance(json.load(open('$d/meta.json'))['files'],list) else json.load(open('$d/meta.json'))['files'])")
-  ids=$(python3 - "$files" <<'PY'
+ids=${@:-$(ls harmless)}
+one() {
+  k=$1; d=/verif/harmless/$k
+  files=$(python3 -c "import json;f=json.load(open('$d/meta.json'))['files'];print(' '.join(f) if isinstance(f,list) else f)")
+  props=$(python3 - "$files" <<'PY'
 import json,sys
 files=sys.argv[1].split()
 out=[]
@@ -14,13 +16,14 @@ for l in open('/verif/properties.jsonl'):
 print(' '.join(out))
 PY
 )
-  echo '{"property":"NONE"}' > $d/meta2.json
   tree=$(mktemp -d /tmp/harmrun.XXXXXX); rmdir $tree
   git -C /repo worktree add -q --detach $tree HEAD
-  git -C $tree apply $d/patch.diff || { echo "$k: patch does not apply"; git -C /repo worktree remove --force $tree; continue; }
-  for id in $ids; do
-    out=$(VERIF_OUT=/tmp/harm_out/$k VERIF_REPO=$tree /venv/bin/python harness/check.py $id --tier quick --skip-lean 2>&1); rc=$?
-    echo "harmless=$k files=[$files] check=$id rc=$rc $(echo "$out" | grep -E '^VIOLATION|^violation|held' | head -2 | tr '\n' ' ' | cut -c1-260)"
+  git -C $tree apply $d/patch.diff || { echo "harmless=$k: patch does not apply"; git -C /repo worktree remove --force $tree; return; }
+  for id in $props; do
+    out=$(VERIF_SEED=${VERIF_SEED:-0} VERIF_OUT=/tmp/harm_out/$k VERIF_REPO=$tree /venv/bin/python harness/check.py $id --tier quick --skip-lean 2>&1); rc=$?
+    echo "harmless=$k files=[$files] check=$id rc=$rc $(echo "$out" | grep -E '^VIOLATION|^violation|held|infrastructure' | head -2 | tr '\n' ' ' | cut -c1-260)"
   done
   git -C /repo worktree remove --force $tree
-done
+}
+export -f one
+printf "%s\n" $ids | xargs -P ${JOBS:-4} -I{} bash -c 'one {}'
